@@ -63,6 +63,9 @@ mod config;
 mod handle;
 #[cfg(test)]
 mod tests;
+#[cfg(litep2p_verif)]
+#[path = "../../verif/c13.rs"]
+pub(crate) mod verif_c13;
 
 /// Logging target for the file.
 const LOG_TARGET: &str = "litep2p::request-response::protocol";
@@ -1017,6 +1020,9 @@ impl RequestResponseProtocol {
         tracing::debug!(target: LOG_TARGET, "starting request-response event loop");
 
         loop {
+            #[cfg(litep2p_verif)]
+            self.verif_snapshot();
+
             tokio::select! {
                 // events coming from the network have higher priority than user commands as all user commands are
                 // responses to network behaviour so ensure that the commands operate on the most up to date information.
